@@ -229,8 +229,8 @@ Section Trace.
         * intros p ->. left. exact Hrep.
     - destruct (g_irs g) as [irs|] eqn:Eg.
       + destruct Hinv as (Hs & Hd).
-        destruct (process_synced _ _ _ _ _ _ _ _ _ _ _ _ Hs Hseg Hp) as (Hrep & Hpost & Hb).
-        destruct Hpost as [Hs' | (Hu' & Hl & ->)].
+        destruct (process_synced _ _ _ _ _ _ _ _ _ _ _ _ Hs Hseg Hp) as (Hrep & Hpost & Hb & _).
+        destruct Hpost as [Hs' | (Hu' & Hl & -> & _)].
         * assert (Hnl : is_state s' Listen = false).
           { destruct Hs' as (_ & _ & _ & _ & Hst). unfold st_ok, is_state in *.
             destruct (s_state s'); try contradiction; reflexivity. }
@@ -244,7 +244,7 @@ Section Trace.
           -- intros p Hp'. discriminate.
       + destruct Hinv as (Hu & Hc & Hd).
         destruct (process_unsynced (S (Datatypes.S (g_epoch g))) (F (Datatypes.S (g_epoch g)))
-                    (F_nonneg _) s cx ip r s' rep tags Hu Hsq Hp) as (Hrep & Hrx & Hpost).
+                    (F_nonneg _) s cx ip r s' rep tags Hu Hsq Hp) as (Hrep & Hrx & _ & Hpost).
         assert (Hb : beyond_untouched s' s) by (intros i _; rewrite Hrx; reflexivity).
         destruct Hpost as [(Hu' & Hst') | (Hsyn & Hst' & Hs')].
         * assert (Hns : is_state s' SynReceived || is_state s' Established = false).
